@@ -242,3 +242,7 @@ CLAUSES = [
                 "definitions taken from their docstrings; non-trivial: no_prefix or no_extend removes a word"),
 ]
 KNOWN_PREDICATES = {}
+
+# coverage-guided second driver (atheris / libFuzzer through Hypothesis' fuzz_one_input) for the core clauses: (clause, quick runs, thorough runs)
+from harness.covfuzz import cov_clauses  # noqa: E402
+CLAUSES += cov_clauses('C14', CLAUSES, [('binary', 3000, 60000), ('unary', 3000, 60000), ('lang_helpers', 2000, 40000)])
